@@ -373,7 +373,10 @@ def val_eq(it, fr, l, r):
         return z3.BoolVal(True)
     if fl in ('set', 'frozenset'):
         ia, ib = set_items(l), set_items(r)
-        return zand([zor([val_eq(it, fr, x, y) for y in ib]) for x in ia] + [zor([val_eq(it, fr, x, y) for y in ia]) for x in ib])
+
+        def sub(a, b):
+            return zand([z3.Implies(g, zor([z3.And(h, val_eq(it, fr, x, y)) for h, y in b])) for g, x in a])
+        return z3.And(sub(ia, ib), sub(ib, ia))
     if isinstance(l, Opaque) and isinstance(r, Opaque):
         if l.what == 'payload' and r.what == 'payload':
             return l.pid == r.pid
@@ -393,9 +396,10 @@ def list_items(x):
 
 
 def set_items(x):
+    """[(guard, element)]"""
     if isinstance(x, SSet):
-        return x.items
-    return list(x)
+        return list(zip([zb(g) for g in x.guards], x.items))
+    return [(z3.BoolVal(True), e) for e in x]
 
 
 def dict_slots(d):
@@ -656,7 +660,7 @@ def contains(it, fr, container, x):
         return SBool(zor([z3.And(container.n > i, val_eq(it, fr, x, y)) for i, y in enumerate(container.items)]))
     if isinstance(container, SSet):
         check_hashable(x)
-        return SBool(zor([val_eq(it, fr, x, y) for y in container.items]))
+        return SBool(zor([z3.And(g, val_eq(it, fr, x, y)) for g, y in set_items(container)]))
     if isinstance(container, (list, tuple)):
         if not has_sym(container) and not isinstance(x, Sym):
             try:
@@ -735,8 +739,8 @@ def iterate(it, fr, x):
     if isinstance(x, SSet):
         # iteration order of a set is unspecified; deduplicate
         out = []
-        for y in x.items:
-            if not any(eng.fork(val_eq(it, fr, y, z)) for z in out):
+        for g, y in set_items(x):
+            if eng.fork(g) and not any(eng.fork(val_eq(it, fr, y, z)) for z in out):
                 out.append(y)
         return out
     if isinstance(x, SStr):
@@ -830,8 +834,8 @@ def sym_order(it, fr, o, l, r):
         return SBool(str_order(it, o, l, r))
     if issubclass(tl, (set, frozenset)):
         a, b = set_items(l), set_items(r)
-        sub = zand([zor([val_eq(it, fr, x, y) for y in b]) for x in a])      # l <= r
-        sup = zand([zor([val_eq(it, fr, x, y) for y in a]) for x in b])      # l >= r
+        sub = zand([z3.Implies(g, zor([z3.And(h, val_eq(it, fr, x, y)) for h, y in b])) for g, x in a])      # l <= r
+        sup = zand([z3.Implies(h, zor([z3.And(g, val_eq(it, fr, x, y)) for g, x in a])) for h, y in b])      # l >= r
         return SBool({'<=': sub, '>=': sup, '<': z3.And(sub, z3.Not(sup)), '>': z3.And(sup, z3.Not(sub))}[o])
     raise Unsupported(f'ordering of symbolic {tl.__name__}')
 
@@ -939,9 +943,10 @@ def sp_len(it, fr, x):
         return sp_len(it, fr, x.d)
     if isinstance(x, SSet):
         cnt = z3.IntVal(0)
-        for i, a in enumerate(x.items):
-            dup = zor([val_eq(it, fr, a, b) for b in x.items[:i]])
-            cnt = cnt + z3.If(dup, 0, 1)
+        its = set_items(x)
+        for i, (g, a) in enumerate(its):
+            dup = zor([z3.And(h, val_eq(it, fr, a, b)) for h, b in its[:i]])
+            cnt = cnt + z3.If(z3.And(g, z3.Not(dup)), 1, 0)
         return SInt(cnt)
     if isinstance(x, Sym):
         t = _pt(x)
@@ -1084,6 +1089,10 @@ def sp_any(it, fr, xs):
 
 def sp_set(it, fr, x=()):
     x = fr.split(x)
+    if isinstance(x, SDict) or (isinstance(x, SView) and x.kind == 'keys'):
+        d = x if isinstance(x, SDict) else x.d
+        live = [(p, k) for p, k, v in d.slots if not (isinstance(p, bool) and not p)]
+        return SSet([k for p, k in live], [p for p, k in live])
     items = [fr.split(i) for i in fr.iterate(x)]
     for i in items:
         check_hashable(i)
@@ -1403,7 +1412,7 @@ def clone(it, v, deep, top=True):
     if isinstance(v, SList):
         return SList([clone(it, x, deep, False) if deep else x for x in v.items], v.n, v.name)
     if isinstance(v, SSet):
-        return SSet(list(v.items))
+        return SSet(list(v.items), list(v.guards))
     if isinstance(v, dict):
         return {k: (clone(it, x, deep, False) if deep else x) for k, x in v.items()}
     if isinstance(v, list):
@@ -1635,6 +1644,7 @@ def set_method(it, fr, s, name, args, kw):
         _mutation(it, s, 'set.add')
         if isinstance(s, SSet):
             s.items.append(args[0])
+            s.guards.append(True)
             return None
         if has_sym(args[0]):
             n = SSet(list(s) + [args[0]])
